@@ -9,12 +9,16 @@ PID = "C07"
 THEOREMS = [
     "c07_conduct_step_bound", "c07_conduct_terminates_partial", "c07_cleanup_twice",
     "c07_no_scene_after_cancel_partial", "c07_no_survivor_in_group", "c07_redirected_command_partial",
+    "c07_scene_barrier_completes",
 ]
-REFUTED = ["c07_conduct_terminates_refuted", "c07_redirected_command_not_interruptible_refuted"]
+REFUTED = ["c07_conduct_terminates_refuted", "c07_redirected_command_not_interruptible_refuted",
+           "c07_scene_barrier_needs_refusal_done"]
 HEADER = "From Shk Require Import Base.Prelude Model.Conduct Corr.C04 Corr.C07.\nOpen Scope Z_scope.\n"
 QUERIES = [
     ("Mfault", "bad_indices c07_model_bad fault_cases"),
     ("Omask", "map c07_oracle_mask fault_cases"),
+    ("Ostop", "bad_indices c07_stop_oracle_bad stop_cases"),
+    ("Mstop", "bad_indices c07_stop_model_bad stop_cases"),
 ]
 BITS = [(1, "did-not-terminate-within-75s"), (2, "process-left-running"), (4, "initial-cleanup-not-once-per-actor"),
         (8, "final-cleanup-missing-or-repeated-or-unwarranted"), (16, "cleanup-order"), (32, "exit-status"), (64, "sighup-handler-got-no-grace")]
@@ -41,6 +45,23 @@ def evaluate(res, tier, seed, only=None):
                       {"kind": "cases-eval", "output": cout[-4000:]}, no_input=True)
         return None
     return cases, summary, vals, path
+
+
+def report_stop(res, summary, vals):
+    stops = summary.get("stop_cases") or []
+    for idx in vals.get("Ostop", [])[:1]:
+        sc = stops[idx]
+        what = ("runScene on a %d-line scene with a quiescing stopper" % sc["NLines"]) if sc["Kind"] == 0 else \
+               ("prompt, termination requested when scene %d of %d is announced" % (sc["K"], sc["NScenes"]))
+        res.violation("c07-prompter-wedged-when-stopper-refuses-line-tasks",
+                      "%s (storyline %s): returned=%s err=%r fired=%s after %d ms" % (
+                          what, sc["Story"], sc["Res"]["Returned"], sc["Res"]["Err"][:80], sc["Res"]["Fired"], sc["Res"]["ElapsedMs"]),
+                      {"kind": "failing-input", "input": sc,
+                       "replay": "hook cmd.VerifRunSceneQuiescing / cmd.VerifPromptQuiesceAt(cfg, k, 20000) on the 3-scene script with this storyline (harness/c04 -prop c07)"})
+    if not res.violations and vals.get("Mstop"):
+        sc = stops[vals["Mstop"][0]]
+        res.violation(None, "the WaitGroup model does not predict whether the real runScene/prompt returns under a quiescing stopper",
+                      {"kind": "correspondence", "first": sc}, no_input=True)
 
 
 def signature(c, mask, names):
@@ -100,6 +121,8 @@ def run(tier, seed):
         "max_wall_ms": max(c["Obs"]["WallMs"] for c in cases),
         "disagreements": {"model": len(vals["Mfault"]), "oracle": sum(1 for m in vals["Omask"] if m)},
     })
+    res.coverage["stopper_refusal_cases"] = len(summary.get("stop_cases") or [])
+    report_stop(res, summary, vals)
     report(res, cases, vals, seed, tier)
     return res.finish()
 
